@@ -18,38 +18,32 @@ def evCallback : Ev → String
   | .enter n => (nodeCallbacks n).1
   | .leave n => (nodeCallbacks n).2
 
-/-- the callbacks each rule was modelled with (source order of the `impl` block) -/
+/-- the callbacks each rule was modelled with (rules and callbacks in alphabetical order, as generated) -/
 def expectedRuleCallbacks : List (RuleId × List String) :=
-  [(.fieldsOnCorrectType, ["enter_operation_definition", "enter_field"]),
-   (.fragmentsOnCompositeTypes, ["enter_inline_fragment", "enter_fragment_definition"]),
-   (.knownArgumentNames, ["enter_directive", "leave_directive", "enter_field", "leave_field", "enter_argument"]),
-   (.knownDirectives, ["enter_operation_definition", "leave_operation_definition", "enter_field", "leave_field",
-      "enter_fragment_definition", "leave_fragment_definition", "enter_fragment_spread", "leave_fragment_spread",
-      "enter_inline_fragment", "leave_inline_fragment", "enter_directive"]),
+  [(.fieldsOnCorrectType, ["enter_field", "enter_operation_definition"]),
+   (.fragmentsOnCompositeTypes, ["enter_fragment_definition", "enter_inline_fragment"]),
+   (.knownArgumentNames, ["enter_argument", "enter_directive", "enter_field", "leave_directive", "leave_field"]),
+   (.knownDirectives, ["enter_directive", "enter_field", "enter_fragment_definition", "enter_fragment_spread", "enter_inline_fragment", "enter_operation_definition", "leave_field", "leave_fragment_definition", "leave_fragment_spread", "leave_inline_fragment", "leave_operation_definition"]),
    (.knownFragmentNames, ["enter_fragment_spread"]),
    (.knownTypeNames, ["enter_fragment_definition", "enter_inline_fragment", "enter_variable_definition"]),
    (.leafFieldSelections, ["enter_field"]),
    (.loneAnonymousOperation, ["enter_document"]),
    (.noFragmentsCycle, ["enter_fragment_definition"]),
-   (.noUndefinedVariables, ["enter_operation_definition", "enter_fragment_definition", "enter_fragment_spread",
-      "enter_variable_definition", "enter_argument", "leave_document"]),
-   (.noUnusedFragments, ["enter_fragment_definition", "leave_fragment_definition", "enter_fragment_spread", "leave_document"]),
-   (.noUnusedVariables, ["enter_operation_definition", "enter_fragment_definition", "enter_fragment_spread",
-      "enter_variable_definition", "enter_argument", "leave_document"]),
+   (.noUndefinedVariables, ["enter_argument", "enter_fragment_definition", "enter_fragment_spread", "enter_operation_definition", "enter_variable_definition", "leave_document"]),
+   (.noUnusedFragments, ["enter_fragment_definition", "enter_fragment_spread", "leave_document", "leave_fragment_definition"]),
+   (.noUnusedVariables, ["enter_argument", "enter_fragment_definition", "enter_fragment_spread", "enter_operation_definition", "enter_variable_definition", "leave_document"]),
    (.overlappingFieldsCanBeMerged, ["enter_document", "enter_selection_set"]),
-   (.possibleFragmentSpreads, ["enter_inline_fragment", "enter_fragment_spread"]),
-   (.providedRequiredArguments, ["enter_field", "enter_directive"]),
+   (.possibleFragmentSpreads, ["enter_fragment_spread", "enter_inline_fragment"]),
+   (.providedRequiredArguments, ["enter_directive", "enter_field"]),
    (.singleFieldSubscriptions, ["enter_operation_definition"]),
-   (.uniqueArgumentNames, ["enter_field", "enter_directive"]),
-   (.uniqueDirectivesPerLocation, ["enter_operation_definition", "enter_field", "enter_fragment_definition",
-      "enter_fragment_spread", "enter_inline_fragment"]),
+   (.uniqueArgumentNames, ["enter_directive", "enter_field"]),
+   (.uniqueDirectivesPerLocation, ["enter_field", "enter_fragment_definition", "enter_fragment_spread", "enter_inline_fragment", "enter_operation_definition"]),
    (.uniqueFragmentNames, ["enter_fragment_definition"]),
    (.uniqueOperationNames, ["enter_operation_definition"]),
    (.uniqueVariableNames, ["enter_operation_definition", "enter_variable_definition"]),
-   (.valuesOfCorrectType, ["enter_null_value", "enter_list_value", "enter_object_value", "enter_enum_value", "enter_scalar_value"]),
+   (.valuesOfCorrectType, ["enter_enum_value", "enter_list_value", "enter_null_value", "enter_object_value", "enter_scalar_value"]),
    (.variablesAreInputTypes, ["enter_variable_definition"]),
-   (.variablesInAllowedPosition, ["leave_document", "enter_fragment_definition", "enter_operation_definition",
-      "enter_fragment_spread", "enter_variable_definition", "enter_variable_value"])]
+   (.variablesInAllowedPosition, ["enter_fragment_definition", "enter_fragment_spread", "enter_operation_definition", "enter_variable_definition", "enter_variable_value", "leave_document"])]
 
 /-- the table read from the code now is the one the model was written against -/
 theorem rule_callbacks_expected : Gen.ruleCallbacks = expectedRuleCallbacks := by decide
